@@ -46,7 +46,12 @@ def check_extends_cycle(repo: Repo, res: Result, rule: str = "C18-CYCLE") -> Non
     of the two chain-walk loops)."""
     # ---- C18-CYCLE ------------------------------------------------------------------
     for fq, gt in ((f"{M}._build_block_stacks", "get_template"), (f"{M}._build_block_stacks_async", "get_template_async")):
-        f = repo.func(fq)
+        f0 = repo.func(fq)
+        # private helpers shared by the sync/async pair are inlined (sa/normalize.py); the block
+        # collection helpers are not part of this rule and stay calls
+        from ..normalize import NFunc, normalize
+
+        f = NFunc(f0, normalize(repo, f0, keep=("_stack_blocks", "_store_blocks", "_find_inheritance_nodes", "_find_inheritance_nodes_async"), aliases=False))
         inner = next((n for n in f.node.body if isinstance(n, (ast.FunctionDef, ast.AsyncFunctionDef)) and n.name == "_stack_template_blocks"), None)
         res.ob(fq, 3)
         if inner is None:
@@ -78,9 +83,31 @@ def check_extends_cycle(repo: Repo, res: Result, rule: str = "C18-CYCLE") -> Non
         if seen_if is None or not (len(seen_if.body) == 1 and isinstance(seen_if.body[0], ast.Raise) and "TemplateInheritanceError" in text(seen_if.body[0])):
             res.add(rule, fq, "raise", f"{fq}: a repeated parent name must raise TemplateInheritanceError", f.file, inner.lineno)
         # the key tested, recorded and loaded is the same expression
-        keyt = text(seen_if.test.left) if seen_if is not None else None
-        adds = [text(c.args[0]) for c in calls(inner) if callee_name(c) == "add" and is_name(c.func.value, "seen")]
-        loads = [text(c.args[0]) for c in calls(inner) if callee_name(c) == gt and c.args]
+        # names connected by plain copies `a = b` denote the same value (an inlined helper hands its
+        # result over through such a copy); each name may have only one non-constant source
+        src: dict[str, set] = {}
+        for st_ in ast.walk(inner):
+            if isinstance(st_, ast.Assign) and len(st_.targets) == 1 and isinstance(st_.targets[0], ast.Name) and isinstance(st_.value, ast.Name):
+                src.setdefault(st_.targets[0].id, set()).add(st_.value.id)
+
+        def rep(name: str, depth=0) -> str:
+            s_ = src.get(name)
+            if s_ and len(s_) == 1 and depth < 5:
+                return rep(next(iter(s_)), depth + 1)
+            return name
+
+        def ktext(e) -> str:
+            import copy as _copy
+
+            e = _copy.deepcopy(e)
+            for n_ in ast.walk(e):
+                if isinstance(n_, ast.Name):
+                    n_.id = rep(n_.id)
+            return text(e)
+
+        keyt = ktext(seen_if.test.left) if seen_if is not None else None
+        adds = [ktext(c.args[0]) for c in calls(inner) if callee_name(c) == "add" and is_name(c.func.value, "seen")]
+        loads = [ktext(c.args[0]) for c in calls(inner) if callee_name(c) == gt and c.args]
         if not adds or any(a != keyt for a in adds) or any(l != keyt for l in loads):
             res.add(rule, fq, f"key:{keyt}:{adds}:{loads}", f"{fq}: the name tested against `seen`, recorded in it and loaded must be the same expression", f.file, inner.lineno)
         # the walk: while next_template: next_template = _stack_template_blocks(next_template)
